@@ -172,13 +172,19 @@ static void h_rle_enc(const vcase *c) {
     } else {
         char b[64];
         const char *at = "ok";
-        for (size_t i = 0; i < count; i++) {
-            if (!sample_index(i, count)) continue;
-            uint64_t x = varintRLEGetAt(in.p, i);
-            if (x != v[i]) {
-                snprintf(b, sizeof b, "bad@%zu:%" PRIu64, i, x);
-                at = b;
-                break;
+        /* random access means any order: highest index first, then ascending
+         * (an accessor that memoises its last position must not depend on
+         * the order of lookups or on what the buffer held before) */
+        for (int pass = 0; pass < 2 && at[0] == 'o'; pass++) {
+            for (size_t k = 0; k < count; k++) {
+                size_t i = pass == 0 ? count - 1 - k : k;
+                if (!sample_index(i, count)) continue;
+                uint64_t x = varintRLEGetAt(in.p, i);
+                if (x != v[i]) {
+                    snprintf(b, sizeof b, "bad@%zu:%" PRIu64, i, x);
+                    at = b;
+                    break;
+                }
             }
         }
         out_str("at", at);
